@@ -49,6 +49,12 @@ def main(tier, only=None):
     if os.environ.get('C01_LAYER', 'both') in ('both', 'queries'):
         from . import query_layer
         query_layer.run(rep, 'C01', K, thorough, 1500 if thorough else 150, only=only, extra_groups=family(thorough))
+    # what R's scan model cannot see: how the executor turns a pushed predicate into a storage key range.  The scan
+    # conformance probes compare, on the real disk engine, every small key-range query with the optimizer on (range pushed
+    # into the scan) and off (full scan + filter) -- the statement of this property for those queries (concrete probes)
+    if not only:
+        from . import conform_scan
+        conform_scan.run(rep, thorough)
     return rep.finish()
 
 
